@@ -7,6 +7,7 @@ use crate::engine::Tier;
 use crate::gen::{self, Sink};
 use crate::gen2;
 use crate::gen3;
+use crate::gen4;
 use crate::sem::SemCase;
 
 pub enum CaseSpec {
@@ -78,10 +79,13 @@ pub fn ref_cases(tier: Tier) -> Vec<CaseSpec> {
     for c in gen3::f1_sext() {
         v.push(CaseSpec::Full(Box::new(c)));
     }
+    for c in gen4::f2_callflags().into_iter().chain(gen4::f1_condval()).chain(gen4::f2_regflags()).chain(gen4::f11_ref()) {
+        v.push(CaseSpec::Full(Box::new(c)));
+    }
     for (c, _names, _mask) in gen2::f3(tier, false) {
         v.push(CaseSpec::Full(Box::new(c)));
     }
-    for idxs in gen2::f4_indices(tier, gen2::SEQ_C_OBSERVABLE) {
+    for idxs in gen2::f4_indices(tier, true) {
         v.push(CaseSpec::Seq(idxs.iter().map(|x| *x as u8).collect()));
     }
     v
@@ -91,7 +95,7 @@ pub fn ref_cases(tier: Tier) -> Vec<CaseSpec> {
 /// accesses, inline assembly, inline subsets, large bodies and non-default memory classes.
 pub fn exec_cases(tier: Tier) -> Vec<CaseSpec> {
     let mut v = Vec::new();
-    for idxs in gen2::f4_indices(tier, gen2::SEQ_ALPHABET.len()) {
+    for idxs in gen2::f4_indices(tier, false) {
         v.push(CaseSpec::Seq(idxs.iter().map(|x| *x as u8).collect()));
     }
     for (c, _names, mask) in gen2::f3(tier, true) {
@@ -134,6 +138,9 @@ pub fn exec_cases(tier: Tier) -> Vec<CaseSpec> {
         v.push(CaseSpec::Full(Box::new(c)));
     }
     for c in gen3::f1_sext() {
+        v.push(CaseSpec::Full(Box::new(c)));
+    }
+    for c in gen4::f2_callflags().into_iter().chain(gen4::f1_condval()).chain(gen4::f2_regflags()).chain(gen4::f11_directed()) {
         v.push(CaseSpec::Full(Box::new(c)));
     }
     for (c, _names, _mask) in gen2::f3(tier, false) {
